@@ -5,9 +5,24 @@ go 1.21.6
 toolchain go1.23.5
 
 require (
-	github.com/go-spatial/geom v0.0.0
+	github.com/go-spatial/geom v0.0.0-20220918193402-3cd2f5a9a082
 	github.com/pdok/texel v0.0.0
 	verif/hcommon v0.0.0
+)
+
+require (
+	github.com/creasty/defaults v1.7.0 // indirect
+	github.com/gabriel-vasile/mimetype v1.4.2 // indirect
+	github.com/go-playground/locales v0.14.1 // indirect
+	github.com/go-playground/universal-translator v0.18.1 // indirect
+	github.com/go-playground/validator/v10 v10.16.0 // indirect
+	github.com/josharian/intern v1.0.0 // indirect
+	github.com/leodido/go-urn v1.2.4 // indirect
+	github.com/mailru/easyjson v0.7.7 // indirect
+	github.com/perimeterx/marshmallow v1.1.5 // indirect
+	golang.org/x/crypto v0.7.0 // indirect
+	golang.org/x/net v0.8.0 // indirect
+	golang.org/x/text v0.8.0 // indirect
 )
 
 replace github.com/pdok/texel => /repo
